@@ -205,13 +205,25 @@ func explore06(r *kit.Run, n, t int) (int, int, string) {
 			expectAttempt := false
 			switch in.Kind {
 			case "proposal":
-				if mon.Cur == "" {
+				accepted := dA.State == sif.StateSigningAwaitPartialSigns && dA.Payload.SigningProposalPayload != nil && dA.Payload.SigningProposalPayload.BatchID == in.Batch
+				if mon.Cur == "" && containsStr(mon.Seen, in.Batch) && !accepted {
+					// a batch id that was proposed before on this path (its operation may still be in
+					// this node's pool): "the next proposal" of the statement is a new batch; whether
+					// a repeated one is taken again is left open - but a refusal must change nothing
+					if roundChanged {
+						viol("C06/refused-repeated-proposal-changed-round", fmt.Sprintf("the repeated proposal %s was refused (%v) but changed the round: now %s", in.Label, err, dA.State))
+					}
+				} else if mon.Cur == "" {
 					// the round is idle (or cancelled, which must behave like idle): the next
 					// proposal must be accepted
-					if dA.State != sif.StateSigningAwaitPartialSigns || dA.Payload.SigningProposalPayload == nil || dA.Payload.SigningProposalPayload.BatchID != in.Batch {
+					if !accepted {
 						viol("C06/next-proposal-not-accepted", fmt.Sprintf("after the previous batch ended (%s) the proposal %s was not accepted: err=%v state=%s", dB.State, in.Label, err, dA.State))
 					} else {
 						mon.Cur, mon.Contrib, mon.Failed = in.Batch, nil, nil
+						if !containsStr(mon.Seen, in.Batch) {
+							mon.Seen = append(mon.Seen, in.Batch)
+							sort.Strings(mon.Seen)
+						}
 					}
 				} else if roundChanged {
 					viol("C06/proposal-changed-running-batch", fmt.Sprintf("while batch %s is collecting, %s changed the round", mon.Cur, in.Label))
@@ -313,4 +325,13 @@ func explore06(r *kit.Run, n, t int) (int, int, string) {
 	r.Add("distinct_outcome_classes", len(outcomes))
 	_ = worldx.Poll
 	return res.States, res.Transitions, fmt.Sprintf("reconstructions=%d cancellations=%d alphabet=%d", attempts, cancels, len(alphabet))
+}
+
+func containsStr(l []string, x string) bool {
+	for _, y := range l {
+		if y == x {
+			return true
+		}
+	}
+	return false
 }
